@@ -30,6 +30,14 @@ PROJECT = {
     'fail.ucg': 'let q = 1 / (%s - %s);\nout flags {q = q};\n' % (P(4), P(4)),
     'maybe.ucg': 'let q = 10 / %s;\nout flags {q = q};\n' % P(5),
     'noout.ucg': 'let l = import "lib.ucg";\nlet z = l.x;\n',
+    # a library that imports a broken / missing file only inside a function body nobody calls: every file that links the
+    # library fails to load it, whichever file of the invocation touched the library first
+    'lazylib.ucg': 'let port = %s;\nlet f = func () => (import "broken.ucg").port;\n' % P(1),
+    'broken.ucg': 'let port = ;\n',
+    'lazyapp.ucg': 'let l = import "lazylib.ucg";\nout flags {p = l.port};\n',
+    'lazysvc.ucg': 'let l = import "./lazylib.ucg";\nout env {P = l.port};\n',
+    'lazylib2.ucg': 'let port = %s;\nlet g = func () => (import "nosuch.ucg").port;\n' % P(2),
+    'lazyapp2.ucg': 'let l = import "lazylib2.ucg";\nout flags {p = l.port};\n',
 }
 # a library reached through symbolic links from two directories, each next to its own settings file
 LINKED = {
@@ -49,6 +57,7 @@ def cases(tier):
     pairs = list(itertools.permutations(['a.ucg', 'b.ucg', 'libout.ucg', 'fail.ucg', 'lib.ucg'], 2))
     pairs += list(itertools.permutations(['c.ucg', 'libout.ucg', 'maybe.ucg'], 2))
     pairs += [('a.ucg', 'a.ucg'), ('libout.ucg', 'libout.ucg'), ('noout.ucg', 'a.ucg'), ('a.ucg', 'noout.ucg')]
+    pairs += list(itertools.permutations(['lazylib.ucg', 'lazyapp.ucg', 'lazysvc.ucg'], 2)) + [('lazylib2.ucg', 'lazyapp2.ucg'), ('lazyapp2.ucg', 'lazylib2.ucg'), ('a.ucg', 'lazyapp.ucg'), ('lazyapp.ucg', 'a.ucg')]
     for p in pairs:
         cs.append({'batch': list(p)})
     trip = [('a.ucg', 'b.ucg', 'c.ucg'), ('b.ucg', 'libout.ucg', 'a.ucg'), ('fail.ucg', 'a.ucg', 'b.ucg'), ('libout.ucg', 'c.ucg', 'b.ucg')]
